@@ -34,6 +34,7 @@
 (*   cmp           ==, partial_cmp, cmp, hash of two stored values next to *)
 (*                 the inner values' answers; rank order for floats        *)
 (*                 (C12, C13)                                              *)
+(*   sort          slice::sort / BTreeSet / max over obtained values (C12)    *)
 (*   ser           serialization of a stored value next to the inner       *)
 (*                 value's / a serde-derived newtype's encoding (C10)      *)
 (***************************************************************************)
@@ -113,10 +114,23 @@ CmpOK(d, a, b, o) ==
 SerOK(d, v, o) ==
   o.ref_ok => (o.k = "ok" /\ o.same)   \* bytes equal the reference encoding (inner value for JSON/MessagePack, serde newtype for RON)
 
+\* C12: sorting and ordered-set insertion of obtained values: no panic, the
+\* result is ordered by the model's order, nothing is lost or invented
+RankLe(fam, a, b) == CmpOf(fam, a, b) \in {"Less", "Equal"}
+SortOK(d, made, o) ==
+  /\ o.k = "ok"
+  /\ Len(o.sorted) = Len(made)
+  /\ \A j \in 1..(Len(o.sorted) - 1) : RankLe(d.fam, o.sorted[j], o.sorted[j + 1])
+  /\ \A j \in DOMAIN made : \E m \in DOMAIN o.sorted : CmpOf(d.fam, made[j], o.sorted[m]) = "Equal"
+  /\ \A j \in 1..(Len(o.set) - 1) : CmpOf(d.fam, o.set[j], o.set[j + 1]) = "Less"
+  /\ \A j \in DOMAIN made : \E m \in DOMAIN o.set : CmpOf(d.fam, made[j], o.set[m]) = "Equal"
+  /\ (made # <<>> => (o.max # <<>> /\ \A j \in DOMAIN made : RankLe(d.fam, made[j], o.max[1])))
+
 ObsBad(d, e, i) ==
   CASE e.ep = "views" -> ~ViewsOK(d, e.ins[i].v[1], e.outs[i])
     [] e.ep = "cmp"   -> ~CmpOK(d, e.ins[i].v[1], e.ins[i].v[2], e.outs[i])
     [] e.ep = "ser"   -> ~SerOK(d, e.ins[i].v[1], e.outs[i])
+    [] e.ep = "sort"  -> ~SortOK(d, e.ins[i].v[1], e.outs[i])
     [] OTHER          -> Assert(FALSE, <<"unknown event kind", e.ep>>)
 
 TraceInit == l = 1 /\ pol = [k \in BoundKinds |-> "?"] /\ nbad = 0 /\ ndrift = 0 /\ npairs = 0
